@@ -206,6 +206,10 @@ def run_route(case, path):
                 # the existing file holds a non-prefix subset of a complete log: delete the chosen E/L/V/I records, run again
                 punch_file(case, path)
                 res = Experiment(eval_tuples=triples, description=case.get("desc")).run(path, processes=1, seed=case.get("seed", 1))
+            if path is not None and case.get("shuffle") is not None:
+                # the records reached the log in another order (several worker processes): same records, permuted; then a restored run on it
+                shuffle_file(case, path)
+                res = Experiment(eval_tuples=triples, description=case.get("desc")).run(path, processes=1, seed=case.get("seed", 1))
             return res, None, ctx.msgs, [v.calls for v in vals]
         except Exception as ex:  # the final read of the log raised
             return None, type(ex).__name__, ctx.msgs, [v.calls for v in vals]
@@ -302,9 +306,30 @@ def decoy_case(case):
                 comp["params"] = decoy_val(comp["params"])
     c["rows"] = [[t, [decoy_val(r) for r in rows]] for t, rows in c["rows"]]
     c["decoy"] = False
+    c["shuffle"] = None
     c["punch"] = []
     c["phases"] = 1
     return c
+
+
+def shuffle_file(case, path):
+    """rewrite the result file with its E/L/V/I records permuted (version and experiment lines stay in front).
+    shuffle = -1: every kind in descending id order; otherwise the permutation of Rng(shuffle)"""
+    import gzip
+    from core.prng import Rng
+    opener = gzip.open if is_gzip_name(path) else open
+    with opener(path, "rb") as f:
+        lines = [ln for ln in f.read().split(b"\n") if ln.strip()]
+    head, recs = [], []
+    for ln in lines:
+        rec = json.loads(ln.decode("utf-8"))
+        (recs if rec and rec[0] in ("E", "L", "V", "I") else head).append(ln)
+    if case["shuffle"] == -1:
+        recs = recs[::-1]
+    else:
+        recs = Rng(case["shuffle"], "C07-shuffle").shuffle(recs)
+    with opener(path, "wb") as f:
+        f.write(b"".join(k + b"\n" for k in head + recs))
 
 
 def run_impl(case):
@@ -1104,7 +1129,9 @@ class C07(Property):
         if rng.chance(0.2):
             case["fail"] = rng.sample(triples, 1)
         case["decoy"] = rng.chance(0.3)
-        mode = rng.wchoice([(35, "fresh"), (35, "two"), (30, "punch")])
+        mode = rng.wchoice([(25, "fresh"), (30, "two"), (25, "punch"), (20, "shuffle")])
+        if mode == "shuffle":
+            case["shuffle"] = rng.choice([-1, -1, rng.randint(0, 10 ** 6), rng.randint(0, 10 ** 6)])
         if mode == "two":
             case["phases"] = 2
             case["skip1"] = rng.subset(triples, 0.5)
@@ -1177,6 +1204,17 @@ class C07(Property):
             cs.append(base([D((S("reward"), ["f", "0.25"])), D((S("reward"), ["f", "0.5"]))], lrns=[{"params": D((S("family"), S("eps")), (S("epsilon"), ["f", "0.2"]))}],
                            envs=[{"params": D((S("e"), I(0)))}], fname=shape, gz=(shape == "gz"), decoy=True))
             cs.append(base([D((S("reward"), ["f", "0.25"])), D((S("k"), S("abba")))], fname=shape, gz=(shape == "gz"), decoy=True, phases=2, skip1=[[0, 0, 0]]))
+        # parameter records out of id order (C18 c-m3) and field names extending the special names (c-m3)
+        g2 = base([])
+        g2.update({"envs": [{"params": D((S("seed"), I(10)))}, {"params": D((S("seed"), I(20)))}, {"params": D((S("seed"), I(30)))}],
+                   "lrns": [{"params": D((S("family"), S("A")))}, {"params": D((S("family"), S("B")))}], "vals": [{"params": None, "lazy": True}],
+                   "triples": [[0, 0, 0], [0, 1, 0], [1, 0, 0], [2, 0, 0], [2, 1, 0]],
+                   "rows": [[t, [D((S("reward"), I(y))) for y in ys]] for t, ys in ([[0, 0, 0], [1, 0, 1]], [[0, 1, 0], [0, 0, 1]], [[1, 0, 0], [1, 1, 1]], [[2, 0, 0], [0, 1, 1]], [[2, 1, 0], [1, 1, 0]])]})
+        for shape in ("plain", "gz"):
+            for sh in (-1, 3, 4):
+                cs.append(dict(json.loads(json.dumps(g2)), fname=shape, gz=(shape == "gz"), shuffle=sh))
+        cs.append(base([D((S(n), L(I(1), I(2)))) for n in ("past_rewards", "summary rewards", "eval_rewards", "rewards2", "Rewards", "rewards")]
+                       + [D((S("past_rewards"), T(I(3))), (S("my index"), T()), (S("index2"), L(I(1))), (S("environment_id2"), T(I(0))), (S("_n"), L(I(5))), (S("_packed"), T()))], fname="gz", gz=True))
         # result-file names of every shape (DiskSink and DiskSource must agree on what is gzip)
         for shape in FNAME_SHAPES:
             for ph in (1, 2):
@@ -1211,6 +1249,8 @@ class C07(Property):
         tags.append("fname:" + fname_shape(case))
         if case.get("decoy"):
             tags.append("decoy-run-on-same-path")
+        if case.get("shuffle") is not None:
+            tags.append("log-records-permuted" + (":reversed" if case["shuffle"] == -1 else ""))
         if case.get("punch"):
             gone = punched_records(case)
             for kk in sorted({g[0] for g in gone}):
@@ -1389,6 +1429,10 @@ class C07(Property):
             c = cp(case); c["phases"] = 1; c["skip1"] = []; yield c
         if case.get("decoy"):
             c = cp(case); c["decoy"] = False; yield c
+        if case.get("shuffle") is not None:
+            c = cp(case); c["shuffle"] = None; yield c
+            if case["shuffle"] != -1:
+                c = cp(case); c["shuffle"] = -1; yield c
         if fname_shape(case) != "plain":
             c = cp(case); c["gz"] = False; c["fname"] = "plain"; yield c
         if case.get("punch"):
